@@ -106,29 +106,35 @@ PickAlts(sd) ==
         /\ extb' = NoBlock
 
 \* C03: a token of 1..2 blocks, an authorizer, and an appended block E.
-\* AttenSize = "small" keeps the menus that discriminate scoping slips; "large" crosses everything.
+\* What matters is who could come to see E's facts: every (owner, element scope, block scope) x E's key
+\* x E's rules (incl. rules forging authority / authorizer facts).  AttenSize = "small" keeps exactly
+\* those dimensions complete and trims the others; "large" crosses everything.
+Small == AttenSize = "small"
 ExtRules  ==
-    IF AttenSize = "small"
-    THEN {<<>>, <<R(D(X), <<F(X)>>, {})>>, <<R(D(X), <<F(X)>>, {"previous"})>>, <<R(F("b0"), <<>>, {})>>, <<R(F("az"), <<>>, {})>>}
+    IF Small
+    THEN {<<>>, <<R(D(X), <<F(X)>>, {})>>, <<R(F("az"), <<>>, {})>>, <<R(F("b0"), <<>>, {})>>}
     ELSE {<<>>} \cup {<<R(D(X), <<F(X)>>, s)>> : s \in ScopeMenu}
          \cup {<<R(F("b0"), <<>>, {})>>, <<R(F("az"), <<>>, {})>>, <<R(D("b0"), <<>>, {})>>}
 ExtChecks ==
-    IF AttenSize = "small"
-    THEN {<<>>} \cup {<<Chk(k, <<Q(<<F(c)>>, {})>>)>> : k \in Kinds, c \in {"bE", X}}
+    IF Small
+    THEN {<<>>, <<Chk("one", <<Q(<<F("bE")>>, {})>>)>>, <<Chk("reject", <<Q(<<F("bE")>>, {})>>)>>, <<Chk("all", <<Q(<<F(X)>>, {})>>)>>}
     ELSE {<<>>} \cup {<<Chk(k, <<Q(<<F(c)>>, s)>>)>> : k \in Kinds, c \in {"b0", "bE", X}, s \in {{}, {"previous"}}}
 AttenQB ==
-    IF AttenSize = "small" THEN {<<F(X)>>, <<D(X)>>, <<F("bE")>>} ELSE QBodies \cup {<<D("bE")>>, <<F("bE")>>}
+    IF Small THEN {<<F(X)>>, <<D(X)>>} ELSE QBodies \cup {<<D("bE")>>, <<F("bE")>>}
+AttenKinds == IF Small THEN {"one", "reject"} ELSE Kinds
 AttenPolicies ==
-    IF AttenSize = "small"
+    IF Small
     THEN {AllowTrue, Pol("allow", <<Q(<<D(X)>>, {})>>), Pol("allow", <<Q(<<F("bE")>>, {})>>)}
     ELSE {AllowTrue, Pol("allow", <<Q(<<D(X)>>, {})>>), Pol("allow", <<Q(<<F("bE")>>, {})>>), Pol("deny", <<Q(<<D("bE")>>, {})>>)}
+MinorScopes == IF Small THEN {{}, {"previous"}} ELSE ScopeMenu
 
 PickAtten(sd) ==
-    \E ee \in Exts, rs \in ScopeMenu, co \in Owners(MaxBlocks - 1), k \in Kinds, qb \in AttenQB, cs \in ScopeMenu,
-       er \in ExtRules, ec \in ExtChecks, es \in ScopeMenu, pol \in AttenPolicies :
+    \E ee \in Exts, rs \in MinorScopes, co \in Owners(MaxBlocks - 1), k \in AttenKinds, qb \in AttenQB,
+       sc \in ({<<s, {}>> : s \in ScopeMenu} \cup {<<{}, s>> : s \in ScopeMenu}),   \* <<check scope, block scope>>
+       er \in ExtRules, ec \in ExtChecks, es \in MinorScopes, pol \in AttenPolicies :
         /\ (sd.ro = NoOwner) => rs = {}
         /\ (co \in 0..(MaxBlocks-1)) => co < sd.n
-        /\ prog' = Skeleton(sd.n, <<sd.e1, "none">>, sd.ro, rs, co, Chk(k, <<Q(qb, cs)>>), NoOwner, {}, <<pol, Pol("deny", <<Q(<<>>, {})>>)>>)
+        /\ prog' = Skeleton(sd.n, <<sd.e1, "none">>, sd.ro, rs, co, Chk(k, <<Q(qb, sc[1])>>), co, sc[2], <<pol, Pol("deny", <<Q(<<>>, {})>>)>>)
         /\ extb' = [ext |-> ee, scope |-> es, facts |-> {F("bE")}, rules |-> er, checks |-> ec]
         /\ Untrusting(prog', ee)
 
@@ -194,6 +200,7 @@ ExtsOne == {"none", "E1"}
 Scopes5 == {{}, {"authority"}, {"previous"}, {"E1"}, {"E2"}}
 Scopes4 == {{}, {"authority"}, {"previous"}, {"E1"}}
 Scopes3 == {{}, {"previous"}, {"E1"}}
+Scopes4k == {{}, {"previous"}, {"E1"}, {"E2"}}
 VarsX == {"$x", "$y"}
 NoInts == [i \in {} |-> 0]
 =============================================================================
